@@ -165,3 +165,7 @@ Lemma single_target_forms_ok : (forall k, single_accepts k = true) /\
   forall Q qempty qpush qpop m ws start k t,
     shortest_path1 Q qempty qpush qpop m ws start k t = shortest_path Q qempty qpush qpop m ws start [t].
 Proof. split; [exact single_target_forms|]. intros. apply single_forms. Qed.
+
+(* both Dijkstra loops sum their distances in a float accumulator (see Model.acc_float) *)
+Lemma accumulator_float : sp_init_dist_float = true /\ set_init_dist_float = true /\ acc_float = true.
+Proof. repeat split; reflexivity. Qed.
